@@ -268,7 +268,11 @@ Proof.
   - apply N.eqb_eq in H. congruence.
 Qed.
 Lemma gsel_eqb_eq a b : gsel_eqb a b = true -> a = b.
-Proof. destruct a, b; cbn [gsel_eqb]; intros H; try discriminate; apply N.eqb_eq in H; congruence. Qed.
+Proof.
+  destruct a as [n|n|f n], b as [m|m|g m]; cbn [gsel_eqb]; intros H; try discriminate;
+    try (apply N.eqb_eq in H; congruence).
+  destruct f, g; try discriminate; apply N.eqb_eq in H; congruence.
+Qed.
 
 Definition pre_rows (tok : Z) (s : merge_stmt) (db : list sprof) : list row :=
   flat_map (fun p => map (proj_elem tok) (sp_tree p))
@@ -288,9 +292,15 @@ Proof.
   match goal with H : leqb N.eqb (ms_order s) _ = true |- _ => apply (leqb_eq N.eqb (fun a b => proj1 (N.eqb_eq a b))) in H; rename H into Hord end.
   match goal with H : match ms_tree_agg s with _ => _ end = true |- _ => rename H into Hagg end.
   match goal with H : negb (ms_distinct s) = true |- _ => apply negb_true_iff in H; rename H into Hdist end.
-  unfold eval_merge_stmt. rewrite Hok, Hout, Hgrp, Hord, Hdist.
+  match goal with H : negb (ms_distinct_pre s) = true |- _ => apply negb_true_iff in H; rename H into Hdp end.
+  match goal with H : negb (ms_from_strict s) = true |- _ => apply negb_true_iff in H; rename H into Hfs end.
+  match goal with H : negb (ms_to_incl s) = true |- _ => apply negb_true_iff in H; rename H into Hti end.
+  unfold eval_merge_stmt. rewrite Hok, Hout, Hgrp, Hord, Hdist, Hdp.
   destruct (ms_tree_agg s); [|discriminate].
   fold (the_proj ty). fold the_out.
+  assert (Ewin : filter (in_win s) db = filter (fun p => Z.leb (ms_from s) (sp_ts p) && Z.ltb (sp_ts p) (ms_to s)) db).
+  { apply filter_ext. intros p. unfold in_win. rewrite Hfs, Hti. reflexivity. }
+  rewrite Ewin. clear Ewin.
   assert (Epre : flat_map fst (map (raw_of toks (the_proj ty))
                    (filter (fun p => Z.leb (ms_from s) (sp_ts p) && Z.ltb (sp_ts p) (ms_to s)) db)) = map tuple_of pre).
   { unfold pre, pre_rows. induction (filter _ db) as [|p l IH]; [reflexivity|]. cbn [flat_map map]. rewrite map_app, IH. f_equal.
@@ -400,7 +410,8 @@ Definition ex_stmt : merge_stmt :=
   {| ms_fp := "SELECT fingerprint FROM profiles_series_gin"%string; ms_table := "profiles"%string; ms_matchers := "1 == 1"%string;
      ms_types := ["cpu:nanoseconds"%string];
      ms_proj := the_proj 0; ms_from := 0; ms_to := 2000000000; ms_out := the_out; ms_group := [1; 2; 3]%N;
-     ms_order := [1%N]; ms_limit := the_limit; ms_tree_agg := GroupArray; ms_fn_agg := GroupUniqArrayArray; ms_distinct := false |}.
+     ms_order := [1%N]; ms_limit := the_limit; ms_tree_agg := GroupArray; ms_fn_agg := GroupUniqArrayArray; ms_distinct := false;
+     ms_distinct_pre := false; ms_from_strict := false; ms_to_incl := false |}.
 Definition ex_D : list pentry :=
   [ (0, [0; 1], 2%nat, ex_profile); (1000000000, [1; 0], 2%nat, ex_profile); (5000000000, [0; 1], 2%nat, ex_profile) ].
 Lemma ex_stmt_hypotheses :
@@ -425,8 +436,14 @@ Definition undistinct (s : merge_stmt) : merge_stmt :=
   {| ms_fp := ms_fp s; ms_table := ms_table s; ms_matchers := ms_matchers s; ms_types := ms_types s;
      ms_proj := ms_proj s; ms_from := ms_from s; ms_to := ms_to s; ms_out := ms_out s; ms_group := ms_group s;
      ms_order := ms_order s; ms_limit := ms_limit s; ms_tree_agg := ms_tree_agg s; ms_fn_agg := ms_fn_agg s;
-     ms_distinct := false |}.
-Definition in_win (s : merge_stmt) (p : sprof) : bool := Z.leb (ms_from s) (sp_ts p) && Z.ltb (sp_ts p) (ms_to s).
+     ms_distinct := false; ms_distinct_pre := ms_distinct_pre s; ms_from_strict := ms_from_strict s; ms_to_incl := ms_to_incl s |}.
+Lemma in_win_ok ty s p : stmt_ok ty s = true -> in_win s p = Z.leb (ms_from s) (sp_ts p) && Z.ltb (sp_ts p) (ms_to s).
+Proof.
+  unfold stmt_ok. intros Hok. repeat (apply andb_prop in Hok; destruct Hok as [Hok ?]).
+  match goal with H : negb (ms_from_strict s) = true |- _ => apply negb_true_iff in H; rename H into Hfs end.
+  match goal with H : negb (ms_to_incl s) = true |- _ => apply negb_true_iff in H; rename H into Hti end.
+  unfold in_win. rewrite Hfs, Hti. reflexivity.
+Qed.
 Definition same_raw (toks : list Z) (s : merge_stmt) (p q : sprof) : bool :=
   raw_eqb (raw_of toks (ms_proj s) p) (raw_of toks (ms_proj s) q).
 (* the profiles of the window a SELECT DISTINCT still reads: the first of every class of equal raw rows *)
@@ -462,8 +479,8 @@ Proof. induction l as [|a l IH]; cbn [filter]; [reflexivity|]. destruct (P a) eq
 Theorem eval_distinct toks s db : ms_distinct s = true ->
   eval_merge_stmt toks s db = eval_merge_stmt toks (undistinct s) (distinct_profiles toks s db).
 Proof.
-  intros Hd. unfold eval_merge_stmt. cbn [undistinct ms_from ms_to ms_proj ms_distinct ms_group ms_order ms_limit ms_tree_agg ms_out].
-  rewrite Hd. fold (in_win s).
+  intros Hd. unfold eval_merge_stmt. cbn [undistinct ms_proj ms_distinct ms_distinct_pre ms_group ms_order ms_limit ms_tree_agg ms_out].
+  rewrite Hd. change (in_win (undistinct s)) with (in_win s).
   assert (E : filter (in_win s) (distinct_profiles toks s db) = distinct_profiles toks s db).
   { apply filter_all. unfold distinct_profiles. apply distinct_by_forall. apply forallb_filter. }
   rewrite E. unfold distinct_profiles, same_raw. rewrite <- distinct_by_map. reflexivity.
@@ -500,10 +517,10 @@ Theorem distinct_harmless_without_repeats toks s db :
 Proof.
   intros H. destruct (ms_distinct s) eqn:Hd.
   - rewrite (eval_distinct toks s db Hd). unfold distinct_profiles. rewrite (distinct_by_id _ _ H).
-    unfold eval_merge_stmt. cbn [undistinct ms_from ms_to ms_proj ms_distinct ms_group ms_order ms_limit ms_tree_agg ms_out].
-    fold (in_win s). rewrite (filter_all (in_win s) (filter (in_win s) db) (forallb_filter _ _)). reflexivity.
-  - unfold eval_merge_stmt. cbn [undistinct ms_from ms_to ms_proj ms_distinct ms_group ms_order ms_limit ms_tree_agg ms_out].
-    rewrite Hd. reflexivity.
+    unfold eval_merge_stmt. cbn [undistinct ms_proj ms_distinct ms_distinct_pre ms_group ms_order ms_limit ms_tree_agg ms_out].
+    change (in_win (undistinct s)) with (in_win s). rewrite (filter_all (in_win s) (filter (in_win s) db) (forallb_filter _ _)). reflexivity.
+  - unfold eval_merge_stmt. cbn [undistinct ms_proj ms_distinct ms_distinct_pre ms_group ms_order ms_limit ms_tree_agg ms_out].
+    change (in_win (undistinct s)) with (in_win s). rewrite Hd. reflexivity.
 Qed.
 
 (* the same profile stored twice: under DISTINCT the second copy is not read *)
@@ -537,7 +554,8 @@ Proof.
   assert (Hproj : ms_proj s = the_proj ty).
   { unfold stmt_ok in Hok. repeat (apply andb_prop in Hok; destruct Hok as [Hok ?]).
     apply (leqb_eq tsel_eqb tsel_eqb_eq) in Hok. exact Hok. }
-  unfold distinct_profiles. cbn [map sprof_of filter]. unfold in_win at 1 2. cbn [sp_ts].
+  unfold distinct_profiles. cbn [map sprof_of filter].
+  change (in_win s) with (in_win (undistinct s)). rewrite !(in_win_ok ty (undistinct s) _ Hok). cbn [sp_ts undistinct ms_from ms_to].
   replace (Z.leb (ms_from s) ts1 && Z.ltb ts1 (ms_to s)) with true
     by (symmetry; apply andb_true_intro; split; [apply Z.leb_le|apply Z.ltb_lt]; lia).
   replace (Z.leb (ms_from s) ts2 && Z.ltb ts2 (ms_to s)) with true
@@ -596,7 +614,8 @@ Definition ex_stmt_distinct : merge_stmt :=
   {| ms_fp := ms_fp ex_stmt; ms_table := ms_table ex_stmt; ms_matchers := ms_matchers ex_stmt; ms_types := ms_types ex_stmt;
      ms_proj := ms_proj ex_stmt; ms_from := ms_from ex_stmt; ms_to := ms_to ex_stmt; ms_out := ms_out ex_stmt;
      ms_group := ms_group ex_stmt; ms_order := ms_order ex_stmt; ms_limit := ms_limit ex_stmt;
-     ms_tree_agg := ms_tree_agg ex_stmt; ms_fn_agg := ms_fn_agg ex_stmt; ms_distinct := true |}.
+     ms_tree_agg := ms_tree_agg ex_stmt; ms_fn_agg := ms_fn_agg ex_stmt; ms_distinct := true;
+     ms_distinct_pre := false; ms_from_strict := false; ms_to_incl := false |}.
 Lemma distinct_statement_refuted_applies :
   let P := {| sp_nt := 2; sp_samples := ex_profile; sp_sel := first_index 0 [0; 1] |} in
   ms_distinct ex_stmt_distinct = true /\ stmt_ok 0 (undistinct ex_stmt_distinct) = true /\
@@ -616,3 +635,25 @@ Proof.
     split; [apply parent_determined_b_sound; vm_compute; reflexivity|cbn; lia].
   - split; [vm_compute; intros H; discriminate H|]. split; [vm_compute; reflexivity|]. split; vm_compute; reflexivity.
 Qed.
+
+(* the other shapes the evaluator interprets and stmt_ok refuses, on ex_profile scraped twice (a third copy exactly at the
+   end of the window for the inclusive upper bound): each changes the flame graph total *)
+Definition ex_variant (d dp fs ti : bool) (out : list gsel) : merge_stmt :=
+  {| ms_fp := ms_fp ex_stmt; ms_table := ms_table ex_stmt; ms_matchers := ms_matchers ex_stmt; ms_types := ms_types ex_stmt;
+     ms_proj := ms_proj ex_stmt; ms_from := ms_from ex_stmt; ms_to := ms_to ex_stmt; ms_out := out;
+     ms_group := ms_group ex_stmt; ms_order := ms_order ex_stmt; ms_limit := ms_limit ex_stmt;
+     ms_tree_agg := ms_tree_agg ex_stmt; ms_fn_agg := ms_fn_agg ex_stmt; ms_distinct := d;
+     ms_distinct_pre := dp; ms_from_strict := fs; ms_to_incl := ti |}.
+Definition ex_total (s : merge_stmt) (D : list pentry) : option Z :=
+  option_map (fun rows => rchild_tot (rows_of (m_nodes (merge_trie the_limit new_tree rows []))) 0%N)
+             (eval_merge_stmt [0] s (map (sprof_of city16 0%N (fun _ => [])) D)).
+Definition ex_D2 : list pentry := [(0, [0; 1], 2%nat, ex_profile); (1000000000, [0; 1], 2%nat, ex_profile)].
+Definition ex_D3 : list pentry := ex_D2 ++ [(2000000000, [0; 1], 2%nat, ex_profile)].
+Definition max_out : list gsel := [GKey 1; GKey 2; GKey 3; GAgg AMax 4; GAgg AMax 5].
+Lemma refused_shapes_change_the_total :
+  ex_total ex_stmt ex_D2 = Some 24 /\ ex_total ex_stmt ex_D3 = Some 24 /\
+  (stmt_ok 0 (ex_variant false true false false the_out) = false /\ ex_total (ex_variant false true false false the_out) ex_D2 = Some 12) /\
+  (stmt_ok 0 (ex_variant false false false false max_out) = false /\ ex_total (ex_variant false false false false max_out) ex_D2 = Some 12) /\
+  (stmt_ok 0 (ex_variant false false true false the_out) = false /\ ex_total (ex_variant false false true false the_out) ex_D2 = Some 12) /\
+  (stmt_ok 0 (ex_variant false false false true the_out) = false /\ ex_total (ex_variant false false false true the_out) ex_D3 = Some 36).
+Proof. vm_compute. repeat split; reflexivity. Qed.
